@@ -16,7 +16,7 @@ import traceback
 
 import vf  # noqa: F401
 from vf.build import build_ufo
-from vf.props.c01 import bounded_font
+from vf.props.c01 import bounded_font, no_glyph_draws_anything
 from vf.props.c02 import judge_maxp
 from vf.ref import render as R
 
@@ -866,6 +866,6 @@ def classify(v, case):
                 return "notdef_codepoint_in_cmap"
     if (v["mech"] == "compile_exception" and "tx:" in tr and case["fmt"] == "cff2"
             and case["opts"].get("optimizeCFF", 2) >= 2
-            and not any(len(c) > 1 for g in case["ufo"]["glyphs"] for c in g["contours"])):  # no path: tx discards single-point contours
+            and no_glyph_draws_anything(case["ufo"]["glyphs"], (case.get("opts") or {}).get("roundTolerance", case.get("roundTolerance")))):  # no path: tx discards contours whose points all coincide
         return "cffsubr_cff2_all_glyphs_empty"
     return None
